@@ -4,11 +4,13 @@
    mapped to the kernel's own Float64 / Uint63 OCaml modules, package coq-core.kernel).
    N, Z, positive and nat stay the extracted Coq datatypes. *)
 From Coq Require Import Extraction ExtrOcamlBasic ExtrOCamlFloats ExtrOCamlInt63.
-From UF Require Import Consts Base Crc Frame Codec F64 Feedback Sender Receiver FrameAck Heap FrameQueue SendRate HalfConn.
+From UF Require Import Consts Base Crc Frame Codec F64 Feedback Sender Receiver FrameAck Heap FrameQueue SendRate HalfConn Endpoint.
 
 Extraction Language OCaml.
 Extraction "uf_model.ml"
   N.add N.mul N.div N.modulo N.eqb N.ltb N.leb N.of_nat N.to_nat N.testbit
   crc_compute read_frame write_frame representable
   hc_new hc_send hc_receive hc_handle_frame hc_step hc_flush hc_send_buffer_size hc_is_send_pending set_credit
-  receiver_held src_new src_notify_frame_sent src_step eval_tcp_throughput f_bits.
+  receiver_held src_new src_notify_frame_sent src_step eval_tcp_throughput f_bits
+  server_new server_step server_flush server_drop server_client_send server_client_disconnect
+  client_connect client_step client_flush client_send client_disconnect client_send_buffer_size.
